@@ -741,7 +741,21 @@ fn project_pipeline_layout(body: &[Value]) -> Value {
                         .collect()
                 })
                 .unwrap_or_default();
-            return json!({"bgls": bgls, "push_ranges": ranges, "label": d["label"]});
+            // the group number each listed layout belongs to (from the `BindGroup<N>` segment), however the call is spelled
+            let nos: Option<Vec<String>> = bgls
+                .iter()
+                .map(|b: &Value| {
+                    b.as_str().unwrap_or("").split("::").find_map(|seg| {
+                        let seg = seg.trim();
+                        seg.strip_prefix("BindGroup").filter(|n| !n.is_empty() && n.chars().all(|c| c.is_ascii_digit())).map(|n| n.to_string())
+                    })
+                })
+                .collect();
+            let mut out = json!({"bgls": bgls, "push_ranges": ranges, "label": d["label"]});
+            if let Some(n) = nos {
+                out["bgl_nos"] = json!(n);
+            }
+            return out;
         }
     }
     Value::Null
